@@ -27,7 +27,7 @@ PROPS = {
                               "PgBifrost.Props.C01.sys_tracker_never_panics", "PgBifrost.Props.C01.sys_ack_safe",
                               "PgBifrost.Props.C01.sys_crash_restart_no_loss", "PgBifrost.Props.C01.sys_nostale_needs_schedule_witness",
                               "PgBifrost.Props.C01.runner_wiring_as_modelled", "PgBifrost.Props.C01.flush_position_safe",
-                              "PgBifrost.Props.C01.ledger_as_in_source", "PgBifrost.Props.C01.release_condition_as_in_source", "PgBifrost.Props.C01.tracker_as_in_source"],
+                              "PgBifrost.Props.C01.ledger_as_in_source", "PgBifrost.Props.C01.release_condition_as_in_source", "PgBifrost.Props.C01.tracker_as_in_source", "PgBifrost.Props.C01.workers_report_only_on_success"],
         "partial": "full statement false on the unchanged tree (finding F1): the ledger theorem is proved under NoStale, the "
                    "witness theorem proves the full one false. Layers: L1 ledger (theorem), L2 batcher contract (C04 "
                    "seen_before_dispatch*, seen_log_exact, txns_global_accounting), L3 workers (C11-C14), L4 client (C03); the "
